@@ -1,0 +1,44 @@
+//! Read-only verification hooks (feature `verif-hooks`).
+use super::TinyLFU;
+use alloc::vec::Vec;
+
+/// Complete observable state of a `TinyLFU`.
+pub struct VerifTinyDump {
+    /// sketch rows, two 4-bit counters per byte
+    pub rows: Vec<Vec<u8>>,
+    /// per-row seeds (`std` sketch) or empty (`no_std` sketch)
+    pub seeds: Vec<u64>,
+    /// counter index mask
+    pub mask: u64,
+    /// doorkeeper words
+    pub bloom_bits: Vec<u64>,
+    /// doorkeeper index mask (`size` field)
+    pub bloom_mask: u64,
+    /// doorkeeper number of probes
+    pub bloom_locs: u64,
+    /// doorkeeper shift
+    pub bloom_shift: u64,
+    /// accesses recorded in the current sample window
+    pub w: usize,
+    /// sample size
+    pub samples: usize,
+}
+
+impl<K, KH> TinyLFU<K, KH> {
+    /// Dump sketch, doorkeeper and window counter.
+    pub fn verif_dump(&self) -> VerifTinyDump {
+        let (rows, seeds, mask) = self.ctr.verif_dump();
+        let (bloom_bits, bloom_mask, bloom_locs, bloom_shift) = self.doorkeeper.verif_dump();
+        VerifTinyDump {
+            rows,
+            seeds,
+            mask,
+            bloom_bits,
+            bloom_mask,
+            bloom_locs,
+            bloom_shift,
+            w: self.w,
+            samples: self.samples,
+        }
+    }
+}
